@@ -262,6 +262,9 @@ pub struct Report {
     pub assumptions: Vec<String>,
     pub failures: Vec<Failure>,
     pub notes: Vec<String>,
+    /// further failing cases per finding key that an engine counted without storing them; they
+    /// count like stored ones (known finding if the key is listed, violations otherwise)
+    pub extra_keyed: BTreeMap<String, u64>,
 }
 
 impl Report {
@@ -276,6 +279,7 @@ impl Report {
             assumptions: vec![],
             failures: vec![],
             notes: vec![],
+            extra_keyed: BTreeMap::new(),
         }
     }
 
@@ -336,7 +340,8 @@ impl Report {
                 fs_.len(),
                 path.display()
             );
-            known_summary.insert(k.clone(), json!(fs_.len()));
+            let extra = self.extra_keyed.get(k).copied().unwrap_or(0);
+            known_summary.insert(k.clone(), json!(fs_.len() as u64 + extra));
         }
         // Findings that have gone quiet are noted (not an error).
         for f in &known.findings {
@@ -403,7 +408,9 @@ impl Report {
             }
             self.coverage.insert("failing_cases_by_panic_location".into(), json!(by_loc));
         }
-        let n_viol = violations.len();
+        // counted-only cases of keys that are not listed are violations like their stored siblings
+        let extra_viol: u64 = self.extra_keyed.iter().filter(|(k, _)| known.lookup(&self.property, k).is_none()).map(|(_, n)| *n).sum();
+        let n_viol = violations.len() + extra_viol as usize;
         let wall = self.started.elapsed().as_secs_f64();
         self.coverage
             .insert("known_findings_cases".into(), Value::Object(known_summary));
